@@ -105,7 +105,15 @@ func applyLU(recv, orig *mat.LU, o luOp, xrep string) core.Outcome {
 	return core.Call(func() {
 		switch o.Op {
 		case "Factorize":
-			recv.Factorize(denseOf(o.A))
+			// operand kinds: Dense, a transposed view of the transpose, Matrix interface only
+			var a mat.Matrix = denseOf(o.A)
+			switch xrep {
+			case "inc2":
+				a = denseOf(transposeInts(o.A)).T()
+			case "basic":
+				a = basicMat{denseOf(o.A)}
+			}
+			recv.Factorize(a)
 		case "RankOne":
 			recv.RankOne(orig, float64(o.Alpha), vecOf(o.X, xrep), vecOf(o.Y, xrep))
 		case "None": // observe the state reached by the history
@@ -749,9 +757,7 @@ func replayLU(in *core.Lines, args []string, seed int64, sum *core.Summary) erro
 			}
 			c := &luCase{K: "h", Hist: base, Op: e.op, Reg: e.reg, Recv: m, XRep: "vec",
 				S: obs[e.from], T: obs[e.to], UnitExp: hdr.UnitExp, CondSlackExp: hdr.CondSlackExp}
-			if e.op.Op == "RankOne" {
-				c.XRep = xreps[cnt%len(xreps)]
-			}
+			c.XRep = xreps[cnt%len(xreps)]
 			cnt++
 			if m == "other" {
 				c.Other = hdr.Other[obs[e.from].N-1]
